@@ -142,4 +142,37 @@ instance decReadsOkC (C : List Nat) : (s : St) → (ops : List Op) → Decidable
 def prog (r k : Nat) (fill : List (Nat × Nat)) (reads : List Nat) : List Op :=
   .get r k :: (fill.map (fun fv => Op.set r fv.1 fv.2) ++ [.read r reads, .put r])
 
+/-! ### Fills with an error branch
+
+Not every field is filled by a plain assignment.  `ratelimitmw.newRequestInfo` builds the message constructor
+of the profile from the profile's settings (`dnsmsg.NewConstructor`), which FAILS for a negative
+filtered-response TTL or a missing blocking mode; the error is only collected, and the request is served
+with the constructor of the server.  `BFill` is such a fill: the value `v` when the computation succeeds for
+this request (`ok`), and on the error branch either a fallback `d` (`dflt = some d`: the code writes the
+server's value first and overwrites it on success) or nothing (`dflt = none`: the branch leaves the field as
+the previous user of the pooled object left it). -/
+structure BFill where
+  f : Nat
+  ok : Bool
+  v : Nat
+  dflt : Option Nat
+
+/-- What a fill writes in this request: field and value, or nothing. -/
+def BFill.eff (b : BFill) : Option (Nat × Nat) :=
+  if b.ok then some (b.f, b.v) else b.dflt.map (fun d => (b.f, d))
+
+/-- A plain assignment as a `BFill`. -/
+def BFill.plain (f v : Nat) : BFill := { f := f, ok := true, v := v, dflt := none }
+
+/-- The operations of one fill by request `r`. -/
+def BFill.ops (r : Nat) (b : BFill) : List Op :=
+  match b.eff with
+  | some fv => [.set r fv.1 fv.2]
+  | none => []
+
+/-- A request whose fills have error branches: `Get`, the fills (each on the branch its own data select),
+read, `Put`. -/
+def progB (r k : Nat) (fill : List BFill) (reads : List Nat) : List Op :=
+  prog r k (fill.filterMap BFill.eff) reads
+
 end Agd.PoolCtx
